@@ -886,7 +886,9 @@ func (c *c13Ctx) c13Run(kind string, ver int, ops []c13Op, rng *Rng, nOps int) (
 	}
 	impl.RT = c.dumpRoot(back)
 	if ver == 1 {
-		// migrate the in-memory object (not the reloaded one: see F20) and reload the result
+		// migrate the in-memory object and reload the result. (The reloaded object `back` is judged
+		// separately above through impl.RT, so that a loss on reload - as F20, fixed by f26f8ac, was -
+		// shows up as a round-trip difference and not as a migration difference.)
 		mig := migrations.MigrateRootMetadataV01ToV02(m.(*tufv01.RootMetadata))
 		impl.Mig = c.dumpRoot(mig)
 		data, err := json.Marshal(mig)
